@@ -24,6 +24,29 @@ pub proof fn axiom_live_ptr(h: Heap, p: usize) ensures heap_deref(h, VCell::Ptr(
 pub open spec fn tail_ptr(h: Heap, start: VCell, j: nat) -> VCell decreases j {
     if j == 0 { start } else { match heap_deref(h, tail_ptr(h, start, (j - 1) as nat)) { VCell::Pair(a, d) => VCell::Ptr(d), _ => VCell::Undefined } }
 }
+/// j-th cell of the list whose first cell is `first` (already dereferenced), following cdr pointers through heap h
+pub open spec fn lcell(h: Heap, first: VCell, j: nat) -> VCell decreases j {
+    if j == 0 { first } else { match lcell(h, first, (j - 1) as nat) { VCell::Pair(a, d) => heap_deref(h, VCell::Ptr(d)), _ => VCell::Undefined } }
+}
+/// the list that starts at pointer `start` consists of allocated pairs whose car fields are exactly the pointers `ptrs`, and ends in ()
+pub open spec fn plist(h: Heap, start: VCell, ptrs: Seq<usize>) -> bool decreases ptrs.len() {
+    heap_live(h, start) && if ptrs.len() == 0 { heap_deref(h, start) is Nil } else {
+        heap_deref(h, start) matches VCell::Pair(a, d) && a == ptrs[0] && plist(h, VCell::Ptr(d), ptrs.subrange(1, ptrs.len() as int))
+    }
+}
+/// allocated cells stay allocated and keep their content
+pub open spec fn heap_ext(h: Heap, h2: Heap) -> bool { forall|c: VCell| #[trigger] heap_live(h, c) ==> heap_live(h2, c) && heap_deref(h2, c) == heap_deref(h, c) }
+pub proof fn lemma_plist_preserved(h: Heap, h2: Heap, start: VCell, ptrs: Seq<usize>)
+    requires plist(h, start, ptrs), heap_ext(h, h2) ensures plist(h2, start, ptrs) decreases ptrs.len()
+{
+    if ptrs.len() > 0 { match heap_deref(h, start) { VCell::Pair(a, d) => { lemma_plist_preserved(h, h2, VCell::Ptr(d), ptrs.subrange(1, ptrs.len() as int)); } _ => {} } }
+}
+/// every cdr field along the list designates an allocated cell (a reachable list never points into free cells: collector soundness, C03)
+pub open spec fn spine_live(h: Heap, first: VCell) -> bool { forall|j: nat| (#[trigger] lcell(h, first, j)) matches VCell::Pair(a, d) ==> heap_live(h, VCell::Ptr(d)) }
+/// ptrs are the car fields of the first ptrs.len() pairs of the list, in reverse order, and the list ends there
+pub open spec fn reversed_cars(h: Heap, first: VCell, ptrs: Seq<usize>) -> bool {
+    &&& forall|i: int| 0 <= i < ptrs.len() ==> ((#[trigger] lcell(h, first, (ptrs.len() - 1 - i) as nat)) matches VCell::Pair(a, d) && a == ptrs[i])
+}
 /// the first j tails all are pairs (so the j-th tail exists)
 pub open spec fn has_tails(h: Heap, start: VCell, j: nat) -> bool { forall|i: nat| i < j ==> #[trigger] heap_deref(h, tail_ptr(h, start, i)) is Pair }
 '''
@@ -92,6 +115,48 @@ UNITS = [{
             ],
             'inserts': [{'anchor': '*vm.heap.get_at_index_mut(pair.as_ptr()?) = new_pair;', 'where': 'before',
                          'text': 'proof { axiom_cow_cell_ref(&pair); match pair { VCell::Ptr(pp) => { axiom_live_ptr(vm.heap_spec(), pp); } _ => {} } }'}],
+        },
+        '::reverse': {
+            'props': L,
+            'loop_isolation': True,  # `loop` with break: invariant_except_break
+            'attrs': '#[verifier::exec_allows_no_decreases_clause]',
+            'requires': REQ + ['old(vm).stack_spec().sp_spec() > 1 ==> spine_live(old(vm).heap_spec(), heap_deref(old(vm).heap_spec(), arg(*old(vm), 1)))'],
+            'body_start': 'proof { axiom_vcell_into_self_l(); if old(vm).stack_spec().sp_spec() > 1 { axiom_cow_cell_ref(&arg(*old(vm), 1)); } }',
+            'ensures': [
+                # () for (); otherwise a fresh list of allocated pairs whose cars are the very cars of the argument's pairs in reverse order,
+                # as long as the argument; no allocated cell is changed (the argument list is intact)
+                (['C14'], '''r matches Ok(t) ==> ({
+                    let first = heap_deref(old(vm).heap_spec(), arg(*old(vm), 1));
+                    &&& first is Nil ==> t == first
+                    &&& first is Pair ==> exists|ptrs: Seq<usize>| #[trigger] plist(final(vm).heap_spec(), t, ptrs) && ptrs.len() >= 1
+                            && reversed_cars(old(vm).heap_spec(), first, ptrs) && lcell(old(vm).heap_spec(), first, ptrs.len()) is Nil
+                    &&& heap_ext(old(vm).heap_spec(), final(vm).heap_spec())
+                })'''),
+            ],
+            'loops': {0: '''invariant_except_break rest is Pair,
+                invariant
+                    tail is Ptr, heap_ext(old(vm).heap_spec(), vm.heap_spec()), plist(vm.heap_spec(), tail, b),
+                    list == heap_deref(old(vm).heap_spec(), arg(*old(vm), 1)), spine_live(old(vm).heap_spec(), list),
+                    reversed_cars(old(vm).heap_spec(), list, b), rest == lcell(old(vm).heap_spec(), list, b.len()),
+                    <VCell as vstd::std_specs::convert::IntoSpec<VCell>>::obeys_into_spec(), forall|c: VCell| #[trigger] <VCell as vstd::std_specs::convert::IntoSpec<VCell>>::into_spec(c) == c,
+                ensures rest is Nil, b.len() >= 1,'''},
+            'loop_count': 1,
+            'inserts': [
+                {'anchor': 'loop {', 'where': 'before', 'text': 'let ghost mut b: Seq<usize> = Seq::empty();'},
+                {'loop_start': 0, 'text': 'let ghost h0 = vm.heap_spec(); let ghost t0 = tail; let ghost b0 = b; let ghost rest0 = rest;'},
+                {'anchor': 'rest = vm.heap.get(&rest.as_cdr()?);', 'where': 'before', 'text': '''proof {
+                        match rest0 { VCell::Pair(a, d) => {
+                            lemma_plist_preserved(h0, vm.heap_spec(), t0, b0);
+                            b = seq![a].add(b0);
+                            assert(b.subrange(1, b.len() as int) =~= b0);
+                            axiom_cow_cell_ref(&VCell::Ptr(d));
+                            assert(lcell(old(vm).heap_spec(), list, b0.len()) == rest0);
+                            assert forall|i: int| 0 <= i < b.len() implies ((#[trigger] lcell(old(vm).heap_spec(), list, (b.len() - 1 - i) as nat)) matches VCell::Pair(x, y) && x == b[i]) by {
+                                if i > 0 { assert(b[i] == b0[i - 1]); assert((b.len() - 1 - i) as nat == (b0.len() - 1 - (i - 1)) as nat); }
+                            }
+                        } _ => {} }
+                    }'''},
+            ],
         },
         '::get_list_tail': {
             'props': L, 'requires': REQ,
